@@ -155,7 +155,7 @@ def check(run: Run, prog: Program, model: Model, tier: str) -> None:
     _key_identity(run, prog, model, fn, results.get("dict", []))
 
 
-def _memo(run: Run, prog: Program, model: Model, fn: Any) -> None:
+def _memo(run: Run, prog: Program, model: Model, fn: Any, rule: str = "MEMO") -> None:
     """MEMO: the conversion depends on the *kind* of its argument (isinstance ladder; True/1/1.0 are equal and hash
     alike), so no function on the from_native path may be memoised by equality: lru_cache / cache without
     typed=True, or a dict keyed by the value."""
@@ -171,7 +171,7 @@ def _memo(run: Run, prog: Program, model: Model, fn: Any) -> None:
                 typed = isinstance(d, _ast.Call) and any(k.arg == "typed" and isinstance(k.value, _ast.Constant) and k.value.value is True for k in d.keywords)
                 if not typed:
                     bad += 1
-                    run.violated("MEMO", f"{f.qualname}: @{name.split('.')[-1]}", f.loc,
+                    run.violated(rule, f"{f.qualname}: @{name.split('.')[-1]}", f.loc,
                                  "a kind-sensitive conversion is memoised by equality/hash: True, 1 and 1.0 share one cache slot",
                                  witness="from_native(True); from_native(1.0) returns schema.bool(True), which rejects 1.0")
         # value-keyed module-level dict caches
@@ -182,13 +182,13 @@ def _memo(run: Run, prog: Program, model: Model, fn: Any) -> None:
                 params = {a.arg for a in f.node.args.args}
                 if isinstance(idx, _ast.Name) and idx.id in params:
                     bad += 1
-                    run.violated("MEMO", f"{f.qualname}: {n.value.id}[{idx.id}] cache", f"{f.module.path}:{n.lineno}",
+                    run.violated(rule, f"{f.qualname}: {n.value.id}[{idx.id}] cache", f"{f.module.path}:{n.lineno}",
                                  "converted values are cached in a module-level dict keyed by the value itself: equal values of "
                                  "different kinds (3 and 3.0, True and 1) share one slot",
                                  witness="from_native(3) then from_native(3.0) returns schema.int(3), which rejects 3.0")
     if not bad:
-        run.holds("MEMO", "from_native call closure", fn.loc, f"no equality-keyed memoisation in {len(funcs)} functions", nontrivial=False)
-    run.floor("MEMO", 1)
+        run.holds(rule, "from_native call closure", fn.loc, f"no equality-keyed memoisation in {len(funcs)} functions", nontrivial=False)
+    run.floor(rule, 1)
 
 
 def _refuses_plain(run: Run, prog: Program, fn: Any, results: Dict[str, List[Path]]) -> None:
